@@ -232,7 +232,10 @@ class Walker:
                 return
             r = self.func_record(node, cls, templated)
             self.funcs.append(r)
-            if k == "FunctionDecl" and cls is None and "detail" not in self.ns_stack and "" not in self.ns_stack[1:]:
+            # public API = free functions of the API namespaces; `detail` / anonymous namespaces and names with a
+            # leading underscore (the library's own convention, cf. `_isSystemBigEndian`) are internal helpers
+            if k == "FunctionDecl" and cls is None and "detail" not in self.ns_stack and "" not in self.ns_stack[1:] \
+                    and not node.get("name", "?").startswith("_"):
                 self.free.append((hdr, node.get("name", "?"), r["vparams"]))
             if not self.has_body(node):
                 return
